@@ -193,6 +193,17 @@ func c27Grammar(thorough bool) []c27Expr {
 			}
 		}
 	}
+	// aggregation parameters that are themselves evaluated at every step (not literals), over
+	// operands that are pinned with @ as well as ones that are not
+	for _, a := range []struct{ op, param string }{
+		{"topk", `scalar(c27a{g="y"}), `}, {"bottomk", `scalar(c27a{g="y"}) - 1, `}, {"quantile", `scalar(c27a{g="y"}) / 4, `},
+	} {
+		for _, p := range pool {
+			e := c27Agg(a.op, "", a.param, p)
+			e.hasAt = true // the parameter's selector does not take part in the offset law
+			out = append(out, e)
+		}
+	}
 	// depth 2: vector <op> scalar
 	for _, op := range []string{"+ 1", "* 0", "> 1", "== bool 2", "^ 2", "% 2", "+ time()"} {
 		for _, p := range pool {
